@@ -31,7 +31,8 @@ RULE = ("cases: recipes over generated CSV files (0-7 records, 1-4 columns, quot
         "quotes/newlines, unicode, BOM, CRLF, blank lines, short lines) and SQLite tables with the same "
         "content; Dataset.iterate / Dataset.shuffle consumers (count 0..3n+2) at top level, as friend, as "
         "nested object, with repeat unset/True/False; for_each templates (also nested, also shuffled); "
-        "consumers below a for_each; update mode with pass-through fields; 1-2 iterations.  The rows "
+        "consumers below a for_each; update mode with pass-through fields; 1-2 iterations; a malformed stream "
+        "(line longer than the header, rejected update recipes, missing columns; long lines oracle-only).  The rows "
         "written (per template: for_each record, child_index, consumed records per call site, projected "
         "columns) and the outcome are compared with the Coq model; at most one shuffled use per case, its passes replayed in the model. "
         "non-trivial: some dataset with >= 2 records is drawn from at least twice (wrap-around, cycle, "
@@ -378,6 +379,28 @@ def gen_update_case(rng, n=None):
             "raw": [rng.randint(0, 10 ** 6) for _ in range(20)]}
 
 
+def gen_long_case(rng):
+    """malformed stream: one line has more cells than the header.  The linear iterator reports it as a
+    DataGenError when it reaches that line, the shuffled one when it loads the file.  Outside the model
+    (compared by the oracle only): records before the bad line are still handed out faithfully."""
+    n = rng.randint(1, 5)
+    ds = gen_dataset(rng, n, distinct=True)
+    bad = rng.randrange(n)
+    ds["rows"][bad] = ds["rows"][bad] + ["extra"]
+    ds["rows"] = [[("" if c is None else c) for c in r] for r in ds["rows"]]
+    ds["long"] = bad
+    ds["text"] = render_csv(rng, ds["header"], ds["rows"], False, "minimal", False, True)
+    h, recs = decode_reference(ds)
+    assert h == ds["header"] and recs == ds["rows"]
+    mode = rng.choice(["iterate", "iterate", "shuffle"])
+    if rng.random() < 0.6:
+        recipe = [tmpl(1, ["count", rng.randint(0, 2 * n)], sites=[[1, use("d0", "csv", mode, rng.choice([None, False]))]])]
+    else:
+        recipe = [tmpl(1, ["foreach", use("d0", "csv", mode, None)])]
+    return {"kind": "run", "datasets": {"d0": ds}, "recipe": recipe, "iters": 1, "tick": False,
+            "raw": [rng.randint(0, 10 ** 6) for _ in range(20)]}
+
+
 def boundary_cases(rng):
     out = []
     for n in (0, 1, 2, 3):
@@ -420,6 +443,8 @@ def generate(rng, tier):
         cases.append(gen_scope_case(rng))
     for _ in range(90 * k):
         cases.append(gen_update_case(rng))
+    for _ in range(12 * k):
+        cases.append(gen_long_case(rng))
     if tier == "thorough":
         cases.extend(exhaustive_cases(rng))
     return cases
@@ -703,6 +728,8 @@ def infer_draws(case, rows):
 
 
 def coq_case(case, obs):
+    if any("long" in ds for ds in case["datasets"].values()):
+        return None                 # malformed file: outside the model, oracle only
     try:
         rows = decode(case, obs)
     except Undecodable:
@@ -747,14 +774,23 @@ def spec_counts(case):
 
     def gen(t):
         loop = t["loop"]
+        fe_bad = None
         if loop[0] == "foreach":
             reps = len(data_of(case, loop[1]))
+            fe_bad = case["datasets"][loop[1]["ds"]].get("long")
+            if fe_bad is not None and loop[1]["mode"] == "shuffle":
+                raise _SpecStop()
         else:
             reps = 1 if loop[0] == "default" else loop[1]
-        for _ in range(reps):
+        for i in range(reps):
+            if fe_bad is not None and i == fe_bad:
+                raise _SpecStop()
             for sid, u in t["sites"]:
                 n = len(data_of(case, u))
                 if n == 0 or (u["repeat"] is False and used[sid] >= n):
+                    raise _SpecStop()
+                bad = case["datasets"][u["ds"]].get("long")
+                if bad is not None and (u["mode"] == "shuffle" or used[sid] % n == bad):
                     raise _SpecStop()
                 used[sid] += 1
             for ch in t["nested"]:
@@ -931,6 +967,7 @@ def stats(cases, obss):
             feats["quoted"] += '"' in ds["text"]
             feats["non_ascii"] += any(ord(ch) > 127 for ch in ds["text"])
             feats["short_lines"] += any(None in r for r in ds["rows"])
+            feats["long_line(oracle only)"] += "long" in ds
             feats["embedded_newline"] += any(c2 and "\n" in c2 for r in ds["rows"] for c2 in r)
         for kind, t, sid, u, rc in all_uses(c):
             modes[f"{kind}/{u['mode']}"] += 1
@@ -957,9 +994,14 @@ def stats(cases, obss):
 def _with_rows(case, name, rows):
     ds = dict(case["datasets"][name])
     ds["rows"] = rows
-    lines = []
     ds["text"] = render_csv(__import__("random").Random(0), ds["header"], rows, False, "minimal", False, True)
     ds["bom"] = False
+    if "long" in ds:
+        bad = [i for i, r in enumerate(rows) if len(r) > len(ds["header"])]
+        if bad:
+            ds["long"] = bad[0]
+        else:
+            del ds["long"]
     c = dict(case)
     c["datasets"] = dict(case["datasets"], **{name: ds})
     return c
